@@ -36,4 +36,12 @@ TEXTS = {
                     "costs1/costs2/last_i1 and the matrix growth/border/dominance rules. Symmetry and the recurrence's "
                     "numerical correctness are not decided.",
             "note": NOTE},
+    "C10": {"technique": "static analysis: reset-before-read dataflow on scratch cells, memo-cache coherence and consistency-group rules over transitive write effects, dominance rules on the matrix",
+            "text": "Decides structural clauses soundly over all paths/entry points: every long-lived scratch collection is reset "
+                    "before its first observing use (RS); the memoised ranking is validated against scalar deps on read and "
+                    "reset by every entry point changing collection deps (R10.a); every entry point changing `records` changes "
+                    "the whole group defined by Store::add (R10.b); matrix growth/border/dominance rules (R10.d); closed inventory "
+                    "of interior-mutable state on the &self path (R10.e). Found defects D2 and D3 (now fixed). Equality with a "
+                    "rebuilt store as a runtime value is not decided.",
+            "note": NOTE},
 }
